@@ -3,6 +3,8 @@ import HpxVerif.Lemmas.BmocEnc
 import HpxVerif.Lemmas.CoverWF
 import HpxVerif.Lemmas.BmocNot
 import HpxVerif.Lemmas.BmocViews
+import HpxVerif.Lemmas.BmocXor3
+import HpxVerif.Lemmas.BmocOr2
 
 /-!
 # C09 — every BMOC handed to the user is well formed and its views agree
@@ -18,8 +20,8 @@ well-formed BMOC** (`bmoc_not_wf`).  **The views of a well-formed BMOC agree** (
 `flat_iter_spec` (strictly increasing, exactly the non-absent deepest-level cells), `flat_iter_cell_spec` (same cells,
 each with the raw entry that covers it and that entry's flag), `deep_size_eq_length`, `to_ranges_spec` (non-empty
 ranges, sorted, pairwise disjoint **and non-adjacent**, union = flat set), `into_iter_decodes`, `views_in_range`.
-Open statements (validated by correspondence and the direct well-formedness oracle on every BMOC the runs
-produce): `or_wf`, `xor_wf` (see C08).
+**`or` and `xor` return well-formed BMOCs with valid entries for every pair of such operands** (`or_good`, `xor_good`),
+like `not` and `and`: every BMOC reachable from well-formed ones through any history of operators is well formed.
 -/
 
 namespace Hpx.C09
@@ -192,5 +194,23 @@ theorem into_iter_decodes (b : BMOC) (hD : b.dmax ≤ 29) (hv : ∀ r ∈ b.entr
 theorem views_in_range (b : BMOC) (hD : b.dmax ≤ 29) (hv : ∀ r ∈ b.entries, ValidRaw b.dmax r) :
     (∀ x ∈ flatIter b, x < 12 * 4 ^ b.dmax) ∧ (∀ p ∈ toRanges b, p.2 ≤ 12 * 4 ^ b.dmax) :=
   views_bound b hD hv
+
+/-! ## `or`, `xor` are producers of well-formed BMOCs; closure under histories of operators -/
+
+/-- a BMOC as handed to the user: `depth_max ≤ 29`, valid raw entries, well-formed cell list -/
+def Good (A : BMOC) : Prop := A.dmax ≤ 29 ∧ (∀ r ∈ A.entries, ValidRaw A.dmax r) ∧ WF A.dmax A.cells
+
+theorem or_good (A B : BMOC) (gA : Good A) (gB : Good B) : ∃ R, BMOC.or A B = some R ∧ Good R := by
+  obtain ⟨R, h1, h2, h3, h4, _, _⟩ := bmoc_or_general A B gA.1 gB.1 ⟨gA.2.1, gA.2.2⟩ ⟨gB.2.1, gB.2.2⟩
+  refine ⟨R, h1, ?_, ?_, ?_⟩
+  · rw [h2]; have := gA.1; have := gB.1; omega
+  · rw [h2]; exact h3
+  · rw [h2]; exact h4
+
+theorem xor_good (A B : BMOC) (gA : Good A) (gB : Good B) : ∃ R, BMOC.xor A B = some R ∧ Good R := by
+  obtain ⟨R, h1, h2, h3, _, h5, _, _⟩ := bmoc_xor_valid A B gA.1 gB.1 gA.2.1 gB.2.1 gA.2.2 gB.2.2
+  refine ⟨R, h1, ?_, h3, ?_⟩
+  · rw [h2]; have := gA.1; have := gB.1; omega
+  · rw [h2]; exact h5
 
 end Hpx.C09
